@@ -290,7 +290,7 @@ impl SubCheck for Connections {
 		"connections"
 	}
 	fn cases(&self, tier: Tier) -> u32 {
-		tier.pick(6_000, 150_000)
+		tier.pick(80_000, 1_500_000)
 	}
 	fn strategy(&self, tier: Tier) -> BoxedStrategy<C11Case> {
 		let max = tier.pick(20usize, 40);
